@@ -37,6 +37,8 @@ package interp
 //@   requires [assume] nodes-own-their-debug-record: n.debug == nil || n.debug != n.start.debug
 //@   ensures line-pass-keeps-function-breakpoint: callFlag(n) == old(callFlag(n))
 //@   ensures function-pass-keeps-line-breakpoint: !(len(setup.lines) > 0) ==> lineFlag(n) == old(lineFlag(n))
+//@   ensures request-without-function-breakpoints-keeps-them: !(len(setup.funcs) > 0) ==> callFlag(n.start) == old(callFlag(n.start))
+//@   ensures request-without-line-breakpoints-keeps-them: !(len(setup.lines) > 0) ==> lineFlag(n.start) == old(lineFlag(n.start))
 //@   canary lineFlag(n) == old(lineFlag(n))
 
 // The per-node stop decision of the debugger (called by runCfg before every node when a debugger is
